@@ -10,6 +10,7 @@ import (
 	"github.com/google/go-tdx-guest/abi"
 	"github.com/google/go-tdx-guest/pcs"
 	pb "github.com/google/go-tdx-guest/proto/tdx"
+	"github.com/google/go-tdx-guest/rtmr"
 	"github.com/google/go-tdx-guest/validate"
 	"github.com/google/go-tdx-guest/verify"
 
@@ -35,7 +36,7 @@ func guarded(f func()) (pan any, timedOut bool) {
 }
 
 func C10(c *core.Ctx) {
-	c.Rule = "each public entry point on each untrusted input kind, under recover and a 10 s watchdog: abi.QuoteToProto / verify.RawTdxQuote / validate.RawTdxQuote on all truncations, size-field boundary values and mutations of valid quotes; abi.QuoteToAbiBytes / abi.CheckQuoteV4 / verify.TdxQuote / validate.TdxQuote / verify.ExtractChainFromQuote / verify.SupportedTcbLevelsFromCollateral (on options primed with collateral by an earlier verification) on every single structural mutation of a valid message (each sub-message nil, each bytes field nil/empty/short/long, RTMR count 0..5, numeric boundaries, nil message); arbitrary collateral / CRL / header responses; arbitrary PEM / DER in the certificate chain; arbitrary DER in the SGX extension through pcs.PckCertificateExtensions (random mutations plus every single byte replaced by 0x00 / 0x13 / 0x7f / 0x80 / 0xff). The model's verdict is compared wherever the entry point is modelled. non-trivial = input reaches beyond the first size check; distinct = distinct (entry point, input)"
+	c.Rule = "each public entry point on each untrusted input kind, under recover and a 10 s watchdog: abi.QuoteToProto / verify.RawTdxQuote / validate.RawTdxQuote on all truncations, size-field boundary values and mutations of valid quotes; abi.QuoteToAbiBytes / abi.CheckQuoteV4 / verify.TdxQuote / validate.TdxQuote / verify.ExtractChainFromQuote / verify.SupportedTcbLevelsFromCollateral (on options primed with collateral by an earlier verification) / rtmr.ParseCcelWithTdQuote on every single structural mutation of a valid message (each sub-message nil, each bytes field nil/empty/short/long, RTMR count 0..5, numeric boundaries, nil message); arbitrary collateral / CRL / header responses; arbitrary PEM / DER in the certificate chain; arbitrary DER in the SGX extension through pcs.PckCertificateExtensions (random mutations plus every single byte replaced by 0x00 / 0x13 / 0x7f / 0x80 / 0xff). The model's verdict is compared wherever the entry point is modelled. non-trivial = input reaches beyond the first size check; distinct = distinct (entry point, input)"
 	r := c.Rng
 	w, err := world.HonestWorld(r, baseTime)
 	if err != nil {
@@ -86,6 +87,11 @@ func C10(c *core.Ctx) {
 	// ---- messages ----
 	msgCases(c, func(class, desc string, q *pb.QuoteV4) {
 		nt := q != nil
+		noPanic("rtmr.ParseCcelWithTdQuote/"+class, desc, nt, func() {
+			o := rtmr.TdxDefaultOpts(nil)
+			o.Verification, _ = scenarioFromWorld(w, false, false).options()
+			_, _ = rtmr.ParseCcelWithTdQuote(nil, nil, q, &o)
+		})
 		noPanic("SupportedTcbLevelsFromCollateral/"+class, desc, nt, func() { _, _, _ = verify.SupportedTcbLevelsFromCollateral(q, primed) })
 		noPanic("SupportedTcbLevelsFromCollateral(fresh options)/"+class, desc, nt, func() {
 			_, _, _ = verify.SupportedTcbLevelsFromCollateral(q, &verify.Options{})
